@@ -247,6 +247,53 @@ func c11Body(tp *core.Tape, e *core.Env) {
 			check("concurrent-config-and-targets")
 			continue
 		}
+		if curTree != nil && tp.Bool("targets_while_file_unwritable", 1, 8) {
+			// a new assignment arrives while the generated file cannot be written (the path is taken by
+			// a directory); afterwards the fault is gone and a configuration change is applied: the file
+			// must then list what the sidecar itself reports as assigned
+			newAsg := genC11Assignment(tp, curJobs, e.AvoidKnown && e.Known.OpenTrigger("C11", "label_name_invalid_after_prefix"))
+			bak := sc.OutFile + ".moved"
+			_ = os.Rename(sc.OutFile, bak)
+			_ = os.Mkdir(sc.OutFile, 0o755)
+			err := sc.PostTargets(&shard.UpdateTargetsRequest{Targets: newAsg})
+			_ = os.Remove(sc.OutFile)
+			_ = os.Rename(bak, sc.OutFile)
+			e.Fault("generated_file_unwritable")
+			claimed := false
+			if st, serr := sc.GetStatus(); serr == nil {
+				want := map[uint64]bool{}
+				for _, ts := range newAsg {
+					for _, t := range ts {
+						want[t.Hash] = true
+					}
+				}
+				claimed = len(st) == len(want)
+				for h := range st {
+					if !want[h] {
+						claimed = false
+					}
+				}
+			}
+			if err == nil || claimed {
+				asg = newAsg
+			}
+			ops = append(ops, fmt.Sprintf("targets while the file is unwritable (update error: %v, sidecar reports the new assignment: %v)", err != nil, claimed))
+			e.Logf("op %d targets while the generated file is unwritable: refused=%v claimed=%v", i, err != nil, claimed)
+			newConfig()
+			if fileMode {
+				_ = os.WriteFile(opt.ConfigFile, []byte(curText), 0o644)
+				err = sc.ReloadFile()
+			} else {
+				err = sc.PushConfig(curText)
+			}
+			if err != nil {
+				e.Undecided("a valid generated configuration was rejected: %v\n%s", err, curText)
+				return
+			}
+			e.Probe("config_after_refused_targets")
+			check("config-after-refused-targets")
+			continue
+		}
 		if tp.Bool("op_is_config", 2, 5) || (curTree == nil && tp.Bool("first_config", 1, 2)) {
 			newConfig()
 			var err error
